@@ -1,4 +1,5 @@
 import Std.Data.ExtTreeMap
+import PhreeqcVerif.Model.Formula
 /-!
 # Unit conversion of initial solutions (prep.cpp `convert_units`, read.cpp `check_units`, utilities.cpp `compute_gfw`)
 
@@ -182,6 +183,260 @@ def fixupUnit (dflt : Unit) (own : Option Unit) (alk : Bool) : Option Unit :=
     let u := if alk && u.kind == .mol then { u with kind := .eq } else u
     if !alk && u.kind == .eq then none
     else if u.den == dflt.den then some u else none
+
+/-! ## Text layer: `check_units`, `cxxISolutionComp::read`, `compute_gfw` on the formula text, SOLUTION_SPREAD cells
+
+Everything works on `List Char` (so that the kernel can evaluate it); `String` wrappers at the end. -/
+namespace Txt
+
+/-- `isspace` in the C locale -/
+def isWs (c : Char) : Bool := c.toNat == 32 || (9 ≤ c.toNat && c.toNat ≤ 13)
+/-- `tolower` on ASCII -/
+def lowerC (c : Char) : Char := if 65 ≤ c.toNat && c.toNat ≤ 90 then Char.ofNat (c.toNat + 32) else c
+def lower (s : List Char) : List Char := s.map lowerC
+
+def isPrefix : List Char → List Char → Bool
+  | [], _ => true
+  | _ :: _, [] => false
+  | p :: ps, c :: cs => p == c && isPrefix ps cs
+
+/-- `std::string::find` / `strstr`: is `p` a substring of `s` -/
+def contains (p : List Char) : List Char → Bool
+  | [] => p.isEmpty
+  | c :: cs => isPrefix p (c :: cs) || contains p cs
+
+/-- `replace(str1, str2, s)`: the FIRST occurrence only -/
+def replaceFirst (p r : List Char) : List Char → List Char
+  | [] => if p.isEmpty then r else []
+  | c :: cs => if isPrefix p (c :: cs) then r ++ (c :: cs).drop p.length else c :: replaceFirst p r cs
+
+/-- text up to and including the first occurrence of `p` (`substr(0, pos + len)`); `none` when absent -/
+def cutAfter (p : List Char) : List Char → Option (List Char)
+  | [] => if p.isEmpty then some [] else none
+  | c :: cs => if isPrefix p (c :: cs) then some p else (cutAfter p cs).map (c :: ·)
+
+/-- the replacements of `check_units`, in the order of the code -/
+def replacements : List (String × String) :=
+  [("milli", "m"), ("micro", "u"), ("grams", "g"), ("gram", "g"), ("moles", "Mol"), ("mole", "Mol"), ("mol", "Mol"),
+   ("liter", "l"), ("kgh", "kgw"), ("ppt", "g/kgs"), ("ppm", "mg/kgs"), ("ppb", "ug/kgs"), ("equivalents", "eq"),
+   ("equivalent", "eq"), ("equiv", "eq")]
+
+/-- the `units[]` table -/
+def unitTable : List String :=
+  ["Mol/l", "mMol/l", "uMol/l", "g/l", "mg/l", "ug/l", "Mol/kgs", "mMol/kgs", "uMol/kgs", "g/kgs", "mg/kgs", "ug/kgs",
+   "Mol/kgw", "mMol/kgw", "uMol/kgw", "g/kgw", "mg/kgw", "ug/kgw", "eq/l", "meq/l", "ueq/l", "eq/kgs", "meq/kgs", "ueq/kgs",
+   "eq/kgw", "meq/kgw", "ueq/kgw"]
+
+/-- squeeze white space, lower case, replacements, truncation after the denominator.
+`parser = false`: `Phreeqc::check_units` (`/l` else `/kgs` else `/kgw`); `parser = true`: `CParser::check_units` (three
+independent `if`s). -/
+def normalise (parser : Bool) (tok : List Char) : List Char :=
+  let s0 := lower (tok.filter (fun c => !isWs c))
+  let s1 := replacements.foldl (fun s pr => replaceFirst pr.1.toList pr.2.toList s) s0
+  let cut (p : String) (s : List Char) : Option (List Char) := cutAfter p.toList s
+  if parser then
+    let a := (cut "/l" s1).getD s1
+    let b := (cut "/kgs" a).getD a
+    (cut "/kgw" b).getD b
+  else
+    match cut "/l" s1 with
+    | some a => a
+    | none => match cut "/kgs" s1 with
+      | some a => a
+      | none => (cut "/kgw" s1).getD s1
+
+/-- `check_units(tot_units, alkalinity, check_compatibility, default_units, print)`: `none` = ERROR, `some s` = OK with
+`tot_units` rewritten to `s` -/
+def checkUnits (parser : Bool) (tok : List Char) (alk compat : Bool) (dflt : List Char) : Option (List Char) :=
+  let s := normalise parser tok
+  if !(unitTable.any fun u => u.toList == s) then none else
+  if !compat then some s else
+  let s := if alk && contains "Mol".toList s then replaceFirst "Mol".toList "eq".toList s else s
+  if !alk && contains "eq".toList s then none else
+  if (contains "/l".toList dflt && contains "/l".toList s) || (contains "/kgs".toList dflt && contains "/kgs".toList s) ||
+     (contains "/kgw".toList dflt && contains "/kgw".toList s) then some s else none
+
+/-! the string tests `convert_units` makes on canonical unit names -/
+def sPreFactor (u : List Char) : Rat :=
+  match u with | 'm' :: _ => 1 / 1000 | 'u' :: _ => 1 / 1000000 | _ => 1
+def sGramPerSolution (u : List Char) : Bool := contains "g/kgs".toList u || contains "g/l".toList u
+def sMolPerSolution (u : List Char) : Bool :=
+  contains "Mol/kgs".toList u || contains "Mol/l".toList u || contains "eq/l".toList u
+def sIsGram (u : List Char) : Bool := contains "g/".toList u
+def sPerL (u : List Char) : Bool := contains "/l".toList u
+def sPerSolution (u : List Char) : Bool := contains "kgs".toList u || contains "/l".toList u
+
+/-! ### numbers and tokens -/
+def isDig (c : Char) : Bool := 48 ≤ c.toNat && c.toNat ≤ 57
+def digitsVal (ds : List Char) : Nat := ds.foldl (fun a c => a * 10 + (c.toNat - 48)) 0
+
+/-- `sscanf(token, "%lf")`: value of the longest numeric prefix ([sign] digits [. digits] [e [sign] digits]); `none` when no
+number starts the token (the call returns 0 or EOF). The C value is the nearest double. -/
+def scanNum (t : List Char) : Option Rat :=
+  let (neg, t) := match t with | '-' :: r => (true, r) | '+' :: r => (false, r) | _ => (false, t)
+  let ip := t.takeWhile isDig
+  let t1 := t.dropWhile isDig
+  let (fp, t2) := match t1 with | '.' :: r => (r.takeWhile isDig, r.dropWhile isDig) | _ => ([], t1)
+  if ip.isEmpty && fp.isEmpty then none else
+  let mant : Rat := (digitsVal ip : Rat) + (digitsVal fp : Rat) / ((10 ^ fp.length : Nat) : Rat)
+  let ex : Int := match t2 with
+    | c :: r =>
+      if c == 'e' || c == 'E' then
+        let (eneg, r) := match r with | '-' :: q => (true, q) | '+' :: q => (false, q) | _ => (false, r)
+        let ds := r.takeWhile isDig
+        if ds.isEmpty then 0 else if eneg then -(digitsVal ds : Int) else (digitsVal ds : Int)
+      else 0
+    | [] => 0
+  let v : Rat := if ex ≥ 0 then mant * ((10 ^ ex.toNat : Nat) : Rat) else mant / ((10 ^ (-ex).toNat : Nat) : Rat)
+  some (if neg then -v else v)
+
+/-- split at white space (`copy_token` repeatedly) -/
+def tokens (s : List Char) : List (List Char) :=
+  let rec go (s : List Char) (cur : List Char) (acc : List (List Char)) : List (List Char) :=
+    match s with
+    | [] => (if cur.isEmpty then acc else cur.reverse :: acc).reverse
+    | c :: cs => if isWs c then go cs [] (if cur.isEmpty then acc else cur.reverse :: acc) else go cs (c :: cur) acc
+  go s [] []
+
+/-- repeat `replace("kg ", "kg", line)` while it succeeds -/
+def squeezeKg : Nat → List Char → List Char
+  | 0, s => s
+  | n + 1, s => if contains "kg ".toList s then squeezeKg n (replaceFirst "kg ".toList "kg".toList s) else s
+
+/-- the first lines of `cxxISolutionComp::read` -/
+def preprocess (line : List Char) : List Char :=
+  let l1 := replaceFirst "Kg".toList "kg".toList line
+  let l2 := replaceFirst "KG".toList "kg".toList l1
+  squeezeKg l2.length l2
+
+def isUpperFirst (t : List Char) : Bool := match t with | c :: _ => 65 ≤ c.toNat && c.toNat ≤ 90 | [] => false
+/-- `TT_DIGIT` -/
+def isDigitTok (t : List Char) : Bool := match t with | c :: _ => isDig c || c == '.' || c == '-' | [] => false
+
+/-- what one concentration line says -/
+structure CompText where
+  name : List Char            -- description: the master-species tokens joined by one blank, "(+" → "("
+  conc : Rat
+  own : Option (List Char)    -- units on the line, canonical (CParser::check_units without compatibility check)
+  asName : List Char
+  gfw : Rat
+  rest : List (List Char)     -- what follows (redox couple, phase name, saturation index): not used by convert_units
+  deriving DecidableEq
+
+/-- the master-species loop: tokens that start with a capital or `[`, or are `pH` / `pe` -/
+def masterToks : List (List Char) → List (List Char) × List (List Char)
+  | [] => ([], [])
+  | t :: ts =>
+    if isUpperFirst t || t.head? == some '[' || lower t == "ph".toList || lower t == "pe".toList then
+      let (a, r) := masterToks ts
+      (replaceFirst "(+".toList "(".toList t :: a, r)
+    else ([], t :: ts)
+
+/-- `cxxISolutionComp::read(line, solution)` up to the point where the redox couple / phase / SI are read.
+`none`: PARSER_ERROR, or the undefined case of a missing concentration. -/
+def readCompLine (line : List Char) : Option CompText :=
+  let toks := tokens (preprocess line)
+  let (ms, r) := masterToks toks
+  if ms.isEmpty then none else
+  let name := (ms.foldl (fun acc t => if acc.isEmpty then t else acc ++ ' ' :: t) [])
+  match r with
+  | [] => none
+  | ct :: r1 =>
+    match scanNum ct with
+    | none => none
+    | some conc =>
+      let base : CompText := ⟨name, conc, none, [], 0, []⟩
+      match r1 with
+      | [] => some base
+      | u :: r2 =>
+        let (own, r3) := match checkUnits true u false false [] with
+          | some cu => (some cu, r2)
+          | none => (none, u :: r2)
+        let b1 := { base with own := own }
+        match r3 with
+        | [] => some b1
+        | t :: r4 =>
+          if lower t == "as".toList then
+            match r4 with
+            | [] => some { b1 with asName := [] }
+            | f :: r5 => some { b1 with asName := f, rest := r5 }
+          else if lower t == "gfw".toList || lower t == "gfm".toList then
+            match r4 with
+            | [] => none
+            | g :: r5 => if isDigitTok g then (scanNum g).map fun gv => { b1 with gfw := gv, rest := r5 } else none
+          else some { b1 with rest := t :: r4 }
+
+/-- the string `spread_row_to_solution` builds for one column: heading, datum, unit cell -/
+def spreadCell (heading datum unit : List Char) : List Char := heading ++ ' ' :: datum ++ ' ' :: unit
+
+/-- concentration lines of a SOLUTION block (`read_solution`, OPTION_DEFAULT): a line that does not parse is an input error -/
+def blockComps (lines : List (List Char)) : Option (List CompText) := lines.mapM readCompLine
+
+def isLowerFirst (t : List Char) : Bool := match t with | c :: _ => 97 ≤ c.toNat && c.toNat ≤ 122 | [] => false
+
+/-- element columns of one SOLUTION_SPREAD row (`spread_row_to_solution`, OPTION_DEFAULT): the string of each column is parsed
+like a SOLUTION line; a string whose first token starts with a lower-case letter is skipped; a parse error is NOT counted
+(`#ifdef SKIP`) — the column is dropped here (the code stores the half-read component) -/
+def rowComps (cells : List (List Char × List Char × List Char)) : List CompText :=
+  cells.filterMap fun c =>
+    let line := spreadCell c.1 c.2.1 c.2.2
+    if isLowerFirst ((tokens line).headD []) then none else readCompLine line
+
+end Txt
+
+/-- decode a canonical spelling given as characters -/
+def Unit.ofChars (s : List Char) : Option Unit := Unit.all.find? fun u => u.str.toList == s
+
+/-- `compute_gfw(formula)`: parse the formula text (Model/Formula.lean), then weigh -/
+def gfwOfFormula (elt : String → Option Rat) (formula : String) : Option Rat :=
+  (Formula.parseFormula formula).bind (computeGfw elt)
+
+/-- the component `convert_units` sees for a line of the SOLUTION block: units fixed up against the solution's default
+units, `as` formula parsed, master weight looked up for the first token of the description. `none` = input error. -/
+def compOfText (master : String → Option Rat) (minor : String → Bool) (dflt : Unit)
+    (t : Txt.CompText) : Option Comp :=
+  let name := String.ofList t.name
+  let alk := Txt.isPrefix "alk".toList (Txt.lower t.name)
+  let own : Option (Option Unit) := match t.own with
+    | none => some none
+    | some cu => (Unit.ofChars cu).map some
+  match own.bind (fixupUnit dflt · alk) with
+  | none => none
+  | some u =>
+    let first := String.ofList (t.name.takeWhile (· != ' '))
+    some { name := name, conc := t.conc, unit := u, gfw := t.gfw, asName := String.ofList t.asName,
+           asElts := (Formula.parseFormula (String.ofList t.asName)).getD [("?", 1)],
+           masterGfw := master first, minor := minor name }
+
+/-- spellings the manual documents (and a few the code accepts through its replacement list), with the unit they denote -/
+def documentedSpellings : List (String × Unit) :=
+  [("mol/kgw", ⟨.one, .mol, .perKgw⟩), ("Mol/kgw", ⟨.one, .mol, .perKgw⟩), ("moles/kgw", ⟨.one, .mol, .perKgw⟩),
+   ("mole/kgw", ⟨.one, .mol, .perKgw⟩), ("mol/kgH2O", ⟨.one, .mol, .perKgw⟩), ("MOL/KGW", ⟨.one, .mol, .perKgw⟩),
+   ("mol/kg water", ⟨.one, .mol, .perKgw⟩),
+   ("mmol/kgw", ⟨.milli, .mol, .perKgw⟩), ("millimoles/kgw", ⟨.milli, .mol, .perKgw⟩), ("millimol/kgw", ⟨.milli, .mol, .perKgw⟩),
+   ("mMol/kgw", ⟨.milli, .mol, .perKgw⟩), ("mmol/kgh2o", ⟨.milli, .mol, .perKgw⟩),
+   ("umol/kgw", ⟨.micro, .mol, .perKgw⟩), ("micromol/kgw", ⟨.micro, .mol, .perKgw⟩), ("micromoles/kgw", ⟨.micro, .mol, .perKgw⟩),
+   ("g/kgw", ⟨.one, .gram, .perKgw⟩), ("grams/kgw", ⟨.one, .gram, .perKgw⟩), ("gram/kgw", ⟨.one, .gram, .perKgw⟩),
+   ("mg/kgw", ⟨.milli, .gram, .perKgw⟩), ("milligrams/kgw", ⟨.milli, .gram, .perKgw⟩), ("mg/kgH2O", ⟨.milli, .gram, .perKgw⟩),
+   ("ug/kgw", ⟨.micro, .gram, .perKgw⟩), ("micrograms/kgw", ⟨.micro, .gram, .perKgw⟩),
+   ("mol/l", ⟨.one, .mol, .perL⟩), ("mol/L", ⟨.one, .mol, .perL⟩), ("moles/liter", ⟨.one, .mol, .perL⟩),
+   ("mmol/l", ⟨.milli, .mol, .perL⟩), ("mmol/L", ⟨.milli, .mol, .perL⟩), ("millimol/liter", ⟨.milli, .mol, .perL⟩),
+   ("umol/l", ⟨.micro, .mol, .perL⟩), ("umol/L", ⟨.micro, .mol, .perL⟩), ("micromoles/liter", ⟨.micro, .mol, .perL⟩),
+   ("g/l", ⟨.one, .gram, .perL⟩), ("g/L", ⟨.one, .gram, .perL⟩), ("grams/liter", ⟨.one, .gram, .perL⟩),
+   ("mg/l", ⟨.milli, .gram, .perL⟩), ("mg/L", ⟨.milli, .gram, .perL⟩), ("milligrams/liter", ⟨.milli, .gram, .perL⟩),
+   ("ug/l", ⟨.micro, .gram, .perL⟩), ("ug/L", ⟨.micro, .gram, .perL⟩), ("micrograms/L", ⟨.micro, .gram, .perL⟩),
+   ("mol/kgs", ⟨.one, .mol, .perKgs⟩), ("moles/kgs", ⟨.one, .mol, .perKgs⟩), ("mol/kg solution", ⟨.one, .mol, .perKgs⟩),
+   ("mmol/kgs", ⟨.milli, .mol, .perKgs⟩), ("umol/kgs", ⟨.micro, .mol, .perKgs⟩),
+   ("g/kgs", ⟨.one, .gram, .perKgs⟩), ("ppt", ⟨.one, .gram, .perKgs⟩),
+   ("mg/kgs", ⟨.milli, .gram, .perKgs⟩), ("ppm", ⟨.milli, .gram, .perKgs⟩), ("PPM", ⟨.milli, .gram, .perKgs⟩),
+   ("mg/kg solution", ⟨.milli, .gram, .perKgs⟩),
+   ("ug/kgs", ⟨.micro, .gram, .perKgs⟩), ("ppb", ⟨.micro, .gram, .perKgs⟩),
+   ("eq/kgw", ⟨.one, .eq, .perKgw⟩), ("equivalents/kgw", ⟨.one, .eq, .perKgw⟩), ("equiv/kgw", ⟨.one, .eq, .perKgw⟩),
+   ("meq/kgw", ⟨.milli, .eq, .perKgw⟩), ("milliequivalents/kgw", ⟨.milli, .eq, .perKgw⟩), ("ueq/kgw", ⟨.micro, .eq, .perKgw⟩),
+   ("eq/l", ⟨.one, .eq, .perL⟩), ("eq/L", ⟨.one, .eq, .perL⟩), ("meq/l", ⟨.milli, .eq, .perL⟩), ("meq/L", ⟨.milli, .eq, .perL⟩),
+   ("ueq/l", ⟨.micro, .eq, .perL⟩), ("microequivalents/liter", ⟨.micro, .eq, .perL⟩),
+   ("eq/kgs", ⟨.one, .eq, .perKgs⟩), ("meq/kgs", ⟨.milli, .eq, .perKgs⟩), ("ueq/kgs", ⟨.micro, .eq, .perKgs⟩)]
+
 
 /-- molality of a total -/
 def molality (r : Result) (water : Rat) (k : String) : Option Rat := r.totals[k]?.map (· / water)
